@@ -144,8 +144,22 @@ def g2_map(ctx, ids):
         ex.store(st, a[0], FE(x.ty, P(C.zi(x.e))))
         return UNIT
     D = models.RingDomain(r'fq2::Fq2', 'F2')
-    ex = C.new_executor(ctx, D.models(), extra_models=[(r'(?:\w+::)*chain_p2m9div16', h_chain)] + sgn_models(r'fq2::Fq2', S))
+    # components of an abstract Fq2 value (code may look at u.c0 / u.c1 directly): uninterpreted projections into an abstract Fq,
+    # tied to the element-level sgn0 by the DEFINITION of Fq2::sgn0 (decided bit-precisely in C18):
+    #   sgn0(a) = sgn0(c0)  if c0 != 0  else sgn0(c1)
+    D1 = models.RingDomain(r'fq::Fq', 'F2c')
+    S1 = z3.Function('sgn0_is_negative_Fq', z3.IntSort(), z3.BoolSort())
+    CMP = [z3.Function('c0_of', z3.IntSort(), z3.IntSort()), z3.Function('c1_of', z3.IntSort(), z3.IntSort())]
+    ex = C.new_executor(ctx, D.models() + D1.models(), extra_models=[(r'(?:\w+::)*chain_p2m9div16', h_chain)] + sgn_models(r'fq2::Fq2', S) + sgn_models(r'fq::Fq', S1))
     chk.axioms += [D.isz(z3.IntVal(0)), z3.Not(D.isz(z3.IntVal(1)))]
+    projected = []
+
+    def fe_field(v, i):
+        if v.ty == 'fq2::Fq2' and i in (0, 1):
+            projected.append(C.zi(v.e))
+            return FE('fq::Fq', CMP[i](C.zi(v.e)))
+        return None
+    ex.fe_field = fe_field
     # Fq2 constants become symbols of the abstract ring: install a hook for the two-level struct Fq2 { c0: Fq(..), c1: Fq(..) }
     consts2 = {}
 
@@ -165,6 +179,8 @@ def g2_map(ctx, ids):
     nob = len(ex.obligations)
     out = ex.call(st, '<ec::g2::G2 as osswu_map::OSSWUMap>::osswu_map', [ru])
     X, Y, Z = [v.e for v in out.f]
+    for t_ in [u] + projected:
+        chk.axioms.append(S(t_) == z3.If(D1.iszero(CMP[0](t_)), S1(CMP[1](t_)), S1(CMP[0](t_))))
     st0 = State()
     a = ex.named_const(st0, 'osswu_map::g2::ELLP_A').e
     b = ex.named_const(st0, 'osswu_map::g2::ELLP_B').e
